@@ -1,6 +1,7 @@
 import Gv.Oracle.Common
 import Gv.Spec.Fmt
 import Gv.Model.Fmt.Fasta
+import Gv.Model.Fmt.Paml
 import Gv.Model.Fmt.Phylip
 import Gv.Model.Fmt.Stockholm
 import Gv.Model.Fmt.Clustal
@@ -124,6 +125,7 @@ def modelWrite (fmt : String) (_w : WOpts) (_alphabet : Nat) (b : Bag) : Option 
   | "stockholm" => some (Stockholm.write b.rows)
   | "clustal" => some (Clustal.write harnessVersion _alphabet b.rows)
   | "nexus" => some (Nexus.write _alphabet b.rows)
+  | "paml" => some (Paml.write b.rows)
   | _ => none
 
 /-! ### C03 predicate on the implementation's outcome -/
